@@ -97,12 +97,31 @@ Desc(v) == CASE v.t = "int" -> "int64(" \o ShowInt(v) \o ")"
              [] v.t = "obj" -> "map{" \o DescPairs(v.ps) \o "}"       \* keys in sorted order (the families use sorted keys)
 RecvDesc(v) == IF v.t = "int" THEN "int(" \o ShowInt(v) \o ")" ELSE Desc(v)
 ConvVals == {I(3), I(-7), IMax(0), IMin(0), F(5, 1), F(-3, 0), C(<<"a", "$e$">>), C(<<>>), B(TRUE), B(FALSE), Nil, A(<<>>),
+
              A(<<I(1), S("x"), Nil>>), A(<<A(<<I(2), A(<<>>)>>), O(<<[pk |-> "k", pv |-> F(1, 1)]>>)>>), O(<<>>),
              O(<<[pk |-> "a", pv |-> I(1)]>>)}
 ConvRecvs == {C(<<"a", "B">>), C(<<>>), A(<<I(1), A(<<S("n")>>), Nil>>), A(<<>>), I(5), I(-5), IMax(0), F(5, 1), F(4, 0), B(TRUE), B(FALSE)}
 ConvCases == {[r |-> r, f |-> "rec", a |-> <<x>>] : r \in ConvRecvs, x \in ConvVals}
         \cup {[r |-> r, f |-> "rec", a |-> <<x, y, Nil>>] : r \in {C(<<"a", "B">>), I(5)}, x \in ConvVals, y \in {I(3), O(<<[pk |-> "a", pv |-> I(1)]>>)}}
         \cup {[r |-> r, f |-> "rec", a |-> <<>>] : r \in ConvRecvs}
+\* the same through the data map: receiver and arguments are Go values passed as data; markup and character references
+\* are content like any other (a literal's text is escaped when it is evaluated, so literals are not used for these)
+MarkupVals == {S("&amp;&lt;b&gt;&#39;"), S("<b>&'q'"), A(<<S("&lt;"), A(<<S("&amp;")>>)>>), O(<<[pk |-> "k", pv |-> S("<&amp;>")]>>)}
+MarkupRecvs == {S("&amp;<i>"), A(<<S("&lt;"), S("<")>>)}
+RECURSIVE EncB(_)
+EncB(v) == CASE v.t = "int" -> [t |-> "int", b |-> v.ib, o |-> v.io]
+             [] v.t = "float" -> [t |-> "float", n |-> v.fn, e |-> v.fe]
+             [] v.t = "str" -> [t |-> "str", v |-> ShowB(v)]
+             [] v.t = "bool" -> [t |-> "bool", v |-> v.bv]
+             [] v.t = "nil" -> [t |-> "nil"]
+             [] v.t = "arr" -> [t |-> "arr", v |-> [i \in 1..Len(v.es) |-> EncB(v.es[i])]]
+             [] v.t = "obj" -> [t |-> "obj", v |-> [i \in 1..Len(v.ps) |-> [k |-> v.ps[i].pk, v |-> EncB(v.ps[i].pv)]]]
+ConvDataCases == {[r |-> r, f |-> "rec", a |-> <<x>>] : r \in ConvRecvs \cup MarkupRecvs, x \in (ConvVals \ {Nil}) \cup MarkupVals}
+RECURSIVE DataArgNames(_, _)
+DataArgNames(a, i) == IF i > Len(a) THEN "" ELSE "a" \o ToString(i) \o (IF i = Len(a) THEN "" ELSE ", ") \o DataArgNames(a, i + 1)
+ConvDataRecord(c) == [src |-> "{{ r.rec(" \o DataArgNames(c.a, 1) \o ") }}",
+                      data |-> <<[k |-> "r", v |-> EncB(c.r)]>> \o [i \in 1..Len(c.a) |-> [k |-> "a" \o ToString(i), v |-> EncB(c.a[i])]],
+                      recv |-> RecvDesc(c.r), args |-> [i \in 1..Len(c.a) |-> Desc(c.a[i])], t |-> c.r.t, tags |-> <<"conv", "data", c.r.t>>]
 ConvRecord(c) == [src |-> "{{ r = " \o LitV(c.r) \o " }}{{ r.rec(" \o LitList(c.a) \o ") }}", recv |-> RecvDesc(c.r), args |-> [i \in 1..Len(c.a) |-> Desc(c.a[i])],
                   t |-> c.r.t, tags |-> <<"conv", c.r.t>>]
 
@@ -144,6 +163,7 @@ ArgVarRecord(c) == [src |-> ArgVarSrc(c), data |-> <<>>, expect |-> ArgVarExpect
 Cases == CASE Family = "twice" -> TwiceCases
            [] Family = "argvars" -> ArgVarCases
            [] Family = "conv" -> ConvCases
+           [] Family = "convdata" -> ConvDataCases
            [] Family = "str2" -> StrCases(2) \cup ContainsCases(2, 1) \cup DecCases
            [] Family = "str3" -> StrCases(3) \cup ContainsCases(3, 2) \cup DecCases
            [] Family = "arr2" -> ArrCases(2) \cup SliceCases
@@ -178,9 +198,9 @@ LemmaCase == \A r \in Strs(2) : StrFn("lower", StrFn("upper", r, <<>>), <<>>) = 
 ASSUME LemmaLenRev /\ LemmaSlice /\ LemmaCase
 
 Init == cas \in Cases /\ rec = [src |-> ""]
-Next == rec.src = "" /\ rec' = (IF Family = "conv" THEN ConvRecord(cas) ELSE IF Family = "twice" THEN TwiceRecord(cas)
+Next == rec.src = "" /\ rec' = (IF Family = "conv" THEN ConvRecord(cas) ELSE IF Family = "convdata" THEN ConvDataRecord(cas) ELSE IF Family = "twice" THEN TwiceRecord(cas)
                                       ELSE IF Family = "argvars" THEN ArgVarRecord(cas) ELSE Record(cas)) /\ UNCHANGED cas
 Spec == Init /\ [][Next]_vars
-Total == (rec.src # "" /\ Family # "conv") => rec.expect.kind \in {"out", "err", "any", "oneof"}
+Total == (rec.src # "" /\ Family \notin {"conv", "convdata"}) => rec.expect.kind \in {"out", "err", "any", "oneof"}
 Gen == (rec.src # "" /\ Emit_) => PrintT(ToJson(rec))
 =============================================================================
